@@ -37,7 +37,9 @@ PARTIAL = [
     "KNOWN FINDING C14-hash-seqid (recorded, not repaired): the quantifier says 'seqids free of white space'; a seqid that begins with '#' (or, for an "
     "empty seqid, a Locus.Name that does) is inside it, but gff.Build writes it unescaped and gff.Parse skips the line as a comment "
     "(since fdf6b17 for '#…', before only for '##…'): 1 feature in, 0 out. parse_build / coords_build are proved under wfBuild, which "
-    "excludes exactly this class; hash_seqid_witness is the kernel-checked counterexample over wfBuildQ; such cases are judged (kf class)",
+    "excludes exactly this class; over wfBuildQ (the quantifier as worded) parse_build_hash proves the EXACT result — "
+    "Parse(Build x) = expected (x without its '#'-seqid features) — and hash_seqid_witness is the kernel-checked counterexample; such "
+    "cases are judged, and tagged kf only when the property holds of the record without those features",
     "'preserves region name and bounds, seqid, source, type' is proved and judged for values that are SET; an empty Meta.Name / "
     "RegionStart 0 / RegionEnd 0 / empty seqid, source, type come back as the defaults gff.Build wrote (Locus.Name or Accession or "
     "'unknown'; 1; digits of Locus.SequenceLength or 1; Locus.Name; 'feature'; 'unknown') — parse_build states the exact result "
